@@ -57,7 +57,8 @@ def ConfigurationFileToJson(filename):
 
     '''Reads dosini format configuration file and returns it as json string'''
 
-    cfg = configparser.ConfigParser()
+    # VV: The values of the file are data (e.g. the paths and descriptions of key-outputs), they may contain `%`
+    cfg = configparser.ConfigParser(interpolation=None)
     cfg.read([filename])
     return ConfigurationToJson(cfg)
 
